@@ -1,7 +1,7 @@
 (* use: f64glue *)
 (* C17 model driver: same case language as harness/drv_C17.cpp.
    Model half  = the extracted code-path model (Access/Slice.v, Access/View.v) under [current_behaviour]
-                 (environment C17_MODEL = today | repaired | full | bits:<6 x 0/1> overrides, for runs against patched copies);
+                 (environment C17_MODEL = today | repaired | full | bits:<7 x 0/1> overrides, for runs against patched copies);
    spec half   = the extracted brute-force evaluators of Access/SliceSpec.v (after " ## ").
    The model and the specification keep separate copies of the array: a write the specification refuses
    does not reach the specification's copy, so a later `aread` shows a violated frame condition. *)
@@ -10,10 +10,10 @@ let beh =
   | "today" -> code_today
   | "repaired" -> repaired_except_pinned
   | "full" -> repaired
-  | s when OStr.length s = 11 && OStr.sub s 0 5 = "bits:" ->
+  | s when OStr.length s = 12 && OStr.sub s 0 5 = "bits:" ->
     let b i = s.[5 + i] = '1' in
     { slice_reads_argument_vectors = b 0; slice_point_snaps = b 1; extent_check_wraps = b 2;
-      view_check_wraps = b 3; pads_with_positions = b 4; scalar_template_empty_count = b 5 }
+      view_check_wraps = b 3; pads_with_positions = b 4; scalar_template_empty_count = b 5; tget3_empty_count = b 6 }
   | _ -> current_behaviour
 
 let show_res f r = match r with Ok o -> "OK " ^ f o | Err e -> "ERR " ^ ostr e | UB w -> "UB " ^ ostr w
@@ -61,7 +61,9 @@ let same_rank v (cnt : z olist) (off : z olist) =
   let r = OLst.length v.v_count in
   (cnt = [] || OLst.length cnt = r) && (off = [] || OLst.length off = r)
 
-let handle toks = match toks with
+let rec nat_of_int n = if n <= 0 then O else S (nat_of_int (n - 1))
+
+let rec handle toks = match toks with
   | "arr" :: rest ->
     (match sections rest with
      | shape :: ds ->
@@ -184,5 +186,90 @@ let handle toks = match toks with
          end
        end
      | _ -> failwith "bad value op")
+  | op :: rest when op = "tgetall" || op = "tget3" || op = "tgetat" || op = "tsetall" || op = "tset" ->
+    (* every template route of DataSet.hpp through the view, for every typed container *)
+    (match sections rest with
+     | (rt :: ext0) :: more ->
+       let ext0 = zs ext0 in
+       let r = (match rt, ext0 with
+           | "sc", _ -> RScalar
+           | "c1", [n] -> RCArr1 n
+           | "c2", [m; n] -> RCArr2 (m, n)
+           | "vec", _ -> RVector
+           | "val", _ -> RValarray
+           | "ma", _ -> RMulti (nat_of_int (OLst.length ext0))
+           | "nd", _ -> RNDArray
+           | _ -> failwith "bad route") in
+       let show_get (ext, vals) = show_zs ext ^ " | " ^ show_vals vals in
+       let rank_ok v (l : z olist) = l = [] || OLst.length l = OLst.length v.v_count in
+       let model_get f = (match !m_view with None -> "ERR std::logic_error" | Some v -> show_res show_get (f v)) in
+       let model_set f = (match !m_view with
+           | None -> "ERR std::logic_error"
+           | Some v -> let r = f v in (match r with Ok a -> m_arr := a | _ -> ()); show_res (fun _ -> "done") r) in
+       (match op, more with
+        | "tgetall", [] ->
+          model_get (fun v -> view_tgetall beh v !m_arr r) ^ " ## " ^
+          (match !s_view with
+           | None -> "ANY"
+           | Some v -> (match spec_tgetall v !s_arr r with Ok x -> "OK " ^ show_get x | _ -> "ERR"))
+        | "tget3", [cnt; off] ->
+          let cnt = zs cnt and off = zs off in
+          model_get (fun v -> view_tget3 beh v !m_arr r cnt off) ^ " ## " ^
+          (match !s_view with
+           | None -> "ANY"
+           | Some v ->
+             (match route_resize r cnt with
+              | Ok _ when rank_ok v cnt && rank_ok v off ->
+                (match spec_tget3 v !s_arr r cnt off with Ok x -> "OK " ^ show_get x | _ -> "ERR oob")
+              | _ -> "ERR"))
+        | "tgetat", [off] ->
+          let off = zs off in
+          let vshape = route_shape r ext0 in
+          model_get (fun v -> view_tgetat beh v !m_arr r ext0 off) ^ " ## " ^
+          (match !s_view with
+           | None -> "ANY"
+           | Some v ->
+             if not (rank_ok v vshape && rank_ok v off) then "ERR"
+             else (match spec_get_value v !s_arr vshape off with Ok vals -> "OK " ^ show_get (ext0, vals) | _ -> "ERR oob"))
+        | "tsetall", [[v0]] ->
+          model_set (fun v -> view_tsetall beh v !m_arr r ext0 (gen_from (z_of_string v0))) ^ " ## ERR"
+        | "tset", [off; [v0]] ->
+          let off = zs off and gen = gen_from (z_of_string v0) in
+          let vshape = route_shape r ext0 in
+          model_set (fun v -> view_tset beh v !m_arr r ext0 off gen) ^ " ## " ^
+          (match !s_view with
+           | None -> "ANY"
+           | Some v ->
+             if not (rank_ok v vshape && rank_ok v off) then "ERR"
+             else (match spec_set_value v !s_arr vshape off gen with Ok a -> s_arr := a; "OK done" | _ -> "ERR oob"))
+        | _ -> failwith "bad typed op")
+     | _ -> failwith "bad typed op")
+  | "vsetextent" :: sh ->
+    (match !m_view with None -> "ERR std::logic_error" | Some v -> show_res (fun _ -> "done") (view_set_extent v (zs sh))) ^ " ## " ^
+    (match !s_view with None -> "ANY" | Some _ -> "ERR")
+  | ["vtype"] -> (match !m_view with None -> "ERR std::logic_error" | Some _ -> "OK Int64") ^ " ## " ^
+                 (match !s_view with None -> "ANY" | Some _ -> "OK Int64")
+  | "slice3" :: rest ->
+    (match sections rest with
+     | [st; en] -> handle (("slice" :: st) @ (";" :: en) @ [";"; ";"; "default"])
+     | _ -> failwith "bad slice3")
+  | "posin" :: pos ->
+    let pos = zs pos in
+    "OK " ^ bool01 (position_in_data !m_arr.a_shape pos) ^ " ## OK " ^ bool01 (spec_pos_in_data !m_arr.a_shape pos)
+  | ["dimunit"; j] ->
+    "OK " ^ (match dim_unit (OLst.nth !dims (oint_of_string j)) with None -> "none" | Some (p, b) -> ostr p ^ ostr b)
+  | ["p2i"; j; p; u; r] ->
+    let rule = (match r with "L" -> PositionMatch_Less | "LE" -> PositionMatch_LessOrEqual | "GE" -> PositionMatch_GreaterOrEqual
+                           | "G" -> PositionMatch_Greater | "EQ" -> PositionMatch_Equal | _ -> failwith "bad rule") in
+    show_res (function Some i -> string_of_z i | None -> "none")
+      (position_to_index_scalar (OLst.nth !dims (oint_of_string j)) (dec_dbl p) (unit_of u) rule)
+  | "p2iv" :: rest ->
+    (match sections rest with
+     | [[j; mode]; st; en; us] ->
+       let rm = if mode = "incl" then RangeMatch_Inclusive else RangeMatch_Exclusive in
+       show_res (fun l -> ostring_of_int (OLst.length l) ^
+                          OStr.concat "" (OLst.map (function Some (a, b) -> " [" ^ string_of_z a ^ " " ^ string_of_z b ^ "]" | None -> " [none]") l))
+         (position_to_index_pairs (OLst.nth !dims (oint_of_string j)) (OLst.map dec_dbl st) (OLst.map dec_dbl en) (OLst.map unit_of us) rm)
+     | _ -> failwith "bad p2iv")
   | _ -> failwith "bad command"
 let () = run_file OSys.argv.(1) handle
